@@ -53,6 +53,7 @@ va_site(void **pcs, char *out, size_t sz)
 		__sanitizer_symbolize_pc((char *) pcs[i] - 1, "%f", f, sizeof(f));
 		if (!f[0] || !strcmp(f, "nni_alloc") || !strcmp(f, "nni_zalloc") ||
 		    !strcmp(f, "nng_alloc") || !strncmp(f, "va_", 3) ||
+		    !strncmp(f, "__wrap_nni_", 11) || !strcmp(f, "nni_free") ||
 		    !strcmp(f, "<null>"))
 			continue;
 		if (got)
